@@ -556,14 +556,13 @@ def collision_rules(R, ctx):
                 n += 1
     R.check('R01.6', f"{b.path}|direct-ts-rotation", not bad and n > 0, f"{n} rows: open(collision_free(infix_from_timestamp(now)))",
             f"{bad} (a second rotation within the same second would truncate the file just closed)", where=b.loc())
-    pb = ctx.body(r'::timestamps::path_for_rotated_file_from_timestamp$')
-    EFF = [r'collision_free_infix_for_rotated_file$', r'infix_from_timestamp$', r'FileSpec::as_pathbuf$']
-    I = FDI(f, effects=EFF, no_inline=EFF)
-    rws = I.run(pb.path)
-    ok = len(rws) == 1 and not rws[0].undecided and re.search(
-        r'as_pathbuf#3\(&file_spec,Option::Some\(&[\w:]*collision_free_infix_for_rotated_file#2\(&file_spec,&[\w:]*infix_from_timestamp#1\(&timestamp_for_rotated_file,use_utc,&fmt\)\)\)\)', rws[0].long(repr(rws[0].result)).replace(' ', ''))
-    R.check('R01.6', f"{pb.path}|rotated-name", bool(ok), "rotated name = as_pathbuf(collision_free(infix_from_timestamp(ts)))",
-            f"the name of the rotated file is not collision-checked: {short(repr(rws[0].result) if rws else '?', 200)}", where=pb.loc())
+    rn = c09.rotated_name_rows(ctx)
+    errs = [d['error'] for d in rn if d.get('error')]
+    if errs:
+        raise CheckError(f"R01.6 rotated name: {errs[0]}")
+    okn = bool(rn) and all(d['chain_ok'] for d in rn)
+    R.check('R01.6', 'creation_timestamp_of_currentfile|rotated-name', okn, f"{len(rn)} rows: rotated name = as_pathbuf(collision_free(infix_from_timestamp(ts)))",
+            f"the name of the rotated file is not collision-checked: {[d['witness'][:160] for d in rn if not d['chain_ok']][:1]}", where=None)
     # initialisation: infix opened with truncate (append = false) must be collision-checked for the direct timestamp namings
     ib = ctx.body(r'::State::initialize_with_rotation$')
     rows = init_rows(ctx)
